@@ -7,6 +7,7 @@ finishes, the race detector stays quiet. -/
 def stepLine (_ : Unit) (line : String) : Unit × List String :=
   match words line with
   | "park" :: _ => ((), ["ok parked-writes=0"])
+  | ["bulk", _] => ((), ["ok writes-inside-statement=0"])
   | ["storm"] => ((), ["done"])
   | ["races"] => ((), ["races 0"])
   | _ => ((), [])
@@ -18,6 +19,10 @@ def judgeLine (caseId : String) (op : String) (outs : List String) : String × L
     let o := outs.head?.getD ""
     if o == "ok parked-writes=0" then (caseId, []) else
       (caseId, [s!"VIOLATION case={caseId} sig=lock:page-write-inside-statement:{kind} got=[{o}]"])
+  | ["bulk", n] =>
+    let o := outs.head?.getD ""
+    if o == "ok writes-inside-statement=0" then (caseId, []) else
+      (caseId, [s!"VIOLATION case={caseId} sig=lock:page-write-inside-statement:bulk rows={n} got=[{o}]"])
   | ["races"] =>
     let o := outs.head?.getD ""
     if o == "races 0" then (caseId, []) else
